@@ -1,10 +1,64 @@
-(** repeatedColumnBuffer.Swap exchanges two whole rows (the levels and the
-    base values are untouched, only the row entries move). *)
+(** repeatedColumnBuffer (column_buffer_repeated.go), proofs about the model of
+    Sort/Repeated.v:
+
+    - WriteValues / writeRow append the levels, the non-null values and one row
+      entry for each value of repetition level 0 ([flat_write]);
+    - the representation invariant [rcol_ok] holds after every history of
+      writes of whole rows, exchanges and pages;
+    - Swap exchanges two whole rows, Page keeps the rows (in buffer order, with
+      all their values), the page read sequentially and cut at repetition
+      level 0 delivers the same rows;
+    - Less i j is the comparator of compare.go on the value sequences of the
+      rows i and j (descending flag, null ordering, shorter sequence first);
+    - Less is a strict weak order, so the contract of sort.Sort applies. *)
 From Coq Require Import List ZArith NArith Bool Arith Lia Permutation.
-From PQ Require Import Sort.Model Sort.ListLemmas Sort.Repeated.
+From PQ Require Import Sort.Model Sort.ListLemmas Sort.ColProofs Sort.CmpProofs Sort.Repeated.
 Import ListNotations.
 
-Section RepeatedProofs.
+(** * list facts *)
+Section SliceLemmas.
+  Context {A : Type}.
+
+  Lemma skipn_skipn' (l : list A) : forall a b, skipn a (skipn b l) = skipn (b + a) l.
+  Proof.
+    induction l as [|x l IH]; intros a b.
+    - now rewrite !skipn_nil.
+    - destruct b as [|b]; simpl; [reflexivity|apply IH].
+  Qed.
+
+  Lemma skipn_nth_cons (l : list A) : forall n d, n < length l ->
+    skipn n l = nth n l d :: skipn (S n) l.
+  Proof.
+    induction l as [|x l IH]; intros [|n] d H; simpl in *; try lia; auto.
+    apply IH. lia.
+  Qed.
+
+  Lemma slice_length (l : list A) o n : o + n <= length l -> length (slice l o n) = n.
+  Proof. intros H. unfold slice. rewrite firstn_length, skipn_length. lia. Qed.
+
+  Lemma slice_app_l (l p : list A) o n : o + n <= length l -> slice (l ++ p) o n = slice l o n.
+  Proof.
+    intros H. unfold slice. rewrite skipn_app, firstn_app, skipn_length.
+    replace (n - (length l - o)) with 0 by lia. rewrite firstn_O. apply app_nil_r.
+  Qed.
+
+  Lemma slice_app_r (l p : list A) n : slice (l ++ p) (length l) n = firstn n p.
+  Proof.
+    unfold slice. rewrite skipn_app, skipn_all2 by lia. rewrite Nat.sub_diag. reflexivity.
+  Qed.
+
+  Lemma slice_S (l : list A) o n d : o < length l ->
+    slice l o (S n) = nth o l d :: slice l (S o) n.
+  Proof. intros H. unfold slice. rewrite (skipn_nth_cons l o d H). reflexivity. Qed.
+
+  Lemma firstn_slice (l : list A) o n m : m <= n -> firstn m (slice l o n) = slice l o m.
+  Proof. intros H. unfold slice. rewrite firstn_firstn. f_equal. lia. Qed.
+
+  Lemma skipn_slice_base (l : list A) o n : skipn o l = slice l o n ++ skipn (o + n) l.
+  Proof. unfold slice. rewrite <- skipn_skipn'. symmetry. apply firstn_skipn. Qed.
+End SliceLemmas.
+
+Section RepeatedSwap.
   Variable V : Type.
 
   Theorem rcol_swap_rows (c : rcol V) i j :
@@ -14,4 +68,675 @@ Section RepeatedProofs.
   Theorem rcol_swap_perm (c : rcol V) i j :
     Permutation (rcol_rows V (rcol_swap V c i j)) (rcol_rows V c).
   Proof. rewrite rcol_swap_rows. apply swapl_perm. Qed.
+End RepeatedSwap.
+
+Section RepeatedProofs.
+  Variable V : Type.
+  Variable lt : V -> V -> bool.
+  Variable cmp : V -> V -> Z.
+  Hypothesis lt_cmp : forall a b, lt a b = true <-> (cmp a b < 0)%Z.
+  Hypothesis cmp_opp : forall a b, (cmp a b < 0 <-> cmp b a > 0)%Z.
+  Hypothesis cmp_trans : forall a b d, (cmp a b <= 0 -> cmp b d <= 0 -> cmp a d <= 0)%Z.
+
+  Notation rval := (rval V).
+  Notation rcol := (rcol V).
+
+  (** ** levels *)
+  (* number of levels equal to the maximum: the non-null values *)
+  Definition cnt (md : N) (ds : list N) : nat := length (filter (fun d => N.eqb d md) ds).
+
+  Lemma cnt_app md a b : cnt md (a ++ b) = cnt md a + cnt md b.
+  Proof. unfold cnt. now rewrite filter_app, app_length. Qed.
+
+  Lemma cnt_cons md d t : cnt md (d :: t) = (if N.eqb d md then 1 else 0) + cnt md t.
+  Proof. unfold cnt. simpl. destruct (N.eqb d md); reflexivity. Qed.
+
+  Lemma cnt_split md n l : cnt md l = cnt md (firstn n l) + cnt md (skipn n l).
+  Proof. rewrite <- cnt_app, firstn_skipn. reflexivity. Qed.
+
+  Lemma cnt_firstn_le md n l : cnt md (firstn n l) <= cnt md l.
+  Proof. rewrite (cnt_split md n l). lia. Qed.
+
+  Lemma cnt_slice_le md l o n : cnt md (firstn o l) + cnt md (slice l o n) <= cnt md l.
+  Proof.
+    rewrite (cnt_split md o l). unfold slice.
+    assert (H := cnt_firstn_le md n (skipn o l)). lia.
+  Qed.
+
+  Definition hd_zero (reps : list N) : Prop :=
+    match reps with r :: _ => r = 0%N | [] => True end.
+
+  Definition nonzero (r : N) : Prop := r <> 0%N.
+
+  Lemma until_zero_le t : until_zero t <= length t.
+  Proof. induction t as [|r t IH]; simpl; auto. destruct (N.eqb r 0); simpl; lia. Qed.
+
+  Lemma until_zero_firstn t : Forall nonzero (firstn (until_zero t) t).
+  Proof.
+    induction t as [|r t IH]; simpl; [constructor|].
+    destruct (N.eqb_spec r 0); simpl; constructor; auto.
+  Qed.
+
+  Lemma until_zero_skipn t : hd_zero (skipn (until_zero t) t).
+  Proof.
+    induction t as [|r t IH]; simpl; auto.
+    destruct (N.eqb_spec r 0); simpl; auto.
+  Qed.
+
+  Lemma until_zero_app t p : hd_zero p -> until_zero (t ++ p) = until_zero t.
+  Proof.
+    intros Hp. induction t as [|r t IH]; simpl.
+    - destruct p as [|q p]; simpl in *; auto. subst. reflexivity.
+    - destruct (N.eqb r 0); auto.
+  Qed.
+
+  Lemma until_zero_nonzero t p : Forall nonzero t -> until_zero (t ++ p) = length t + until_zero p.
+  Proof.
+    induction 1 as [|r t Hr Ht IH]; simpl; auto.
+    destruct (N.eqb_spec r 0); [contradiction|]. now rewrite IH.
+  Qed.
+
+  Lemma row_length_skipn reps off :
+    row_length reps off = match skipn off reps with [] => 0 | _ :: t => S (until_zero t) end.
+  Proof. reflexivity. Qed.
+
+  Lemma row_length_bound reps off : off < length reps ->
+    1 <= row_length reps off /\ off + row_length reps off <= length reps.
+  Proof.
+    intros H. unfold row_length. rewrite (skipn_nth_cons reps off 0%N H).
+    assert (L := until_zero_le (skipn (S off) reps)). rewrite skipn_length in L. lia.
+  Qed.
+
+  Lemma row_length_app reps p off : off < length reps -> hd_zero p ->
+    row_length (reps ++ p) off = row_length reps off.
+  Proof.
+    intros H Hp. unfold row_length. rewrite skipn_app.
+    replace (off - length reps) with 0 by lia.
+    rewrite (skipn_nth_cons reps off 0%N H). simpl. now rewrite until_zero_app.
+  Qed.
+
+  Lemma row_length_app_r reps p : row_length (reps ++ p) (length reps) = row_length p 0.
+  Proof.
+    unfold row_length. rewrite skipn_app, skipn_all2, Nat.sub_diag by lia. reflexivity.
+  Qed.
+
+  (* a row: a value of repetition level 0, then values of other levels *)
+  Lemma row_shape reps off : off < length reps ->
+    exists nz, slice reps off (row_length reps off) = nth off reps 0%N :: nz /\ Forall nonzero nz /\
+               hd_zero (skipn (off + row_length reps off) reps).
+  Proof.
+    intros H. unfold row_length, slice. rewrite (skipn_nth_cons reps off 0%N H).
+    exists (firstn (until_zero (skipn (S off) reps)) (skipn (S off) reps)).
+    split; [reflexivity|]. split; [apply until_zero_firstn|].
+    replace (off + S (until_zero (skipn (S off) reps))) with (S off + until_zero (skipn (S off) reps)) by lia.
+    rewrite <- skipn_skipn'. apply until_zero_skipn.
+  Qed.
+
+  Lemma row_length_zero_nonzero nz p : Forall nonzero nz -> hd_zero p ->
+    row_length (0%N :: nz ++ p) 0 = S (length nz).
+  Proof.
+    intros Hn Hp. unfold row_length. simpl. rewrite until_zero_nonzero by auto.
+    destruct p as [|q p]; simpl in *; [lia|]. subst. simpl. lia.
+  Qed.
+
+  (** ** the page read sequentially *)
+  Section WithMd.
+  Variable md : N.
+
+  Lemma rpage_values_length rs : forall ds b, length rs = length ds ->
+    length (rpage_values V md rs ds b) = length rs.
+  Proof.
+    induction rs as [|r rs IH]; intros [|d ds] b H; simpl in *; try lia; auto.
+    destruct (N.eqb d md); [destruct b|]; simpl; rewrite IH; auto.
+  Qed.
+
+  Lemma rpage_values_reps rs : forall ds b, length rs = length ds ->
+    map (rv_rep V) (rpage_values V md rs ds b) = rs.
+  Proof.
+    induction rs as [|r rs IH]; intros [|d ds] b H; simpl in *; try lia; auto.
+    destruct (N.eqb d md); [destruct b|]; simpl; rewrite IH; auto.
+  Qed.
+
+  (* the values beyond those the levels call for are not read *)
+  Lemma rpage_values_enough rs : forall ds x y, cnt md ds <= length x ->
+    rpage_values V md rs ds (x ++ y) = rpage_values V md rs ds x.
+  Proof.
+    induction rs as [|r rs IH]; intros [|d ds] x y H; simpl; auto.
+    rewrite cnt_cons in H. destruct (N.eqb d md).
+    - destruct x as [|v x]; simpl in *; [lia|]. f_equal. apply IH. lia.
+    - f_equal. apply IH. simpl in H. lia.
+  Qed.
+
+  Lemma rpage_values_nil rs : forall ds,
+    rpage_values V md rs ds [] = map (fun rd => mkRval (fst rd) (snd rd) None) (combine rs ds).
+  Proof.
+    induction rs as [|r rs IH]; intros [|d ds]; simpl; auto.
+    destruct (N.eqb d md); f_equal; apply IH.
+  Qed.
+
+  Lemma rpage_values_app r1 : forall d1 r2 d2 b, length r1 = length d1 ->
+    rpage_values V md (r1 ++ r2) (d1 ++ d2) b =
+    rpage_values V md r1 d1 b ++ rpage_values V md r2 d2 (skipn (cnt md d1) b).
+  Proof.
+    induction r1 as [|r r1 IH]; intros [|d d1] r2 d2 b H; simpl in *; try lia; auto.
+    rewrite cnt_cons. destruct (N.eqb d md).
+    - destruct b as [|v b]; simpl.
+      + f_equal. rewrite IH by lia. now rewrite skipn_nil.
+      + f_equal. apply IH. lia.
+    - simpl. f_equal. apply IH. lia.
+  Qed.
+
+  (** the option values of a sequence of levels read against the base values *)
+  Fixpoint vals_at (ds : list N) (b : list V) : list (option V) :=
+    match ds with
+    | [] => []
+    | d :: t =>
+        if N.eqb d md then
+          match b with
+          | v :: b' => Some v :: vals_at t b'
+          | [] => None :: vals_at t []
+          end
+        else None :: vals_at t b
+    end.
+
+  Lemma rpage_values_vals rs : forall ds b, length rs = length ds ->
+    map (rv_val V) (rpage_values V md rs ds b) = vals_at ds b.
+  Proof.
+    induction rs as [|r rs IH]; intros [|d ds] b H; simpl in *; try lia; auto.
+    destruct (N.eqb d md); [destruct b|]; simpl; rewrite IH; auto.
+  Qed.
+
+  Lemma vals_at_length ds : forall b, length (vals_at ds b) = length ds.
+  Proof. induction ds as [|d ds IH]; intros b; simpl; auto. destruct (N.eqb d md); [destruct b|]; simpl; auto. Qed.
+
+  Lemma vals_at_firstn ds : forall m b, firstn m (vals_at ds b) = vals_at (firstn m ds) b.
+  Proof.
+    induction ds as [|d ds IH]; intros [|m] b; simpl; auto.
+    destruct (N.eqb d md); [destruct b|]; simpl; now rewrite IH.
+  Qed.
+
+  (** ** what is written *)
+  Definition wvals (vs : list rval) : list V :=
+    flat_map (fun v => if N.eqb (rv_def V v) md
+                       then match rv_val V v with Some x => [x] | None => [] end
+                       else []) vs.
+
+  (* a value: present exactly at the maximum definition level *)
+  Definition rval_ok (v : rval) : Prop := rv_def V v = md <-> rv_val V v <> None.
+
+  Lemma wvals_app a b : wvals (a ++ b) = wvals a ++ wvals b.
+  Proof. apply flat_map_app. Qed.
+
+  Lemma wvals_length vs : Forall rval_ok vs -> length (wvals vs) = cnt md (map (rv_def V) vs).
+  Proof.
+    induction 1 as [|v vs Hv _ IH]; simpl; auto. rewrite cnt_cons, app_length, IH. f_equal.
+    unfold rval_ok in Hv. destruct (N.eqb_spec (rv_def V v) md) as [E|E].
+    - destruct (rv_val V v); simpl; auto. exfalso. now apply Hv.
+    - reflexivity.
+  Qed.
+
+  (* reading back what was written *)
+  Lemma rpage_values_written vs : Forall rval_ok vs -> forall rest,
+    rpage_values V md (map (rv_rep V) vs) (map (rv_def V) vs) (wvals vs ++ rest) = vs.
+  Proof.
+    induction 1 as [|v vs Hv _ IH]; intros rest; simpl; auto.
+    unfold rval_ok in Hv. destruct v as [r d o]; simpl in *.
+    destruct (N.eqb_spec d md) as [E|E].
+    - destruct o as [x|]; [|exfalso; now apply Hv]. simpl. now rewrite IH.
+    - destruct o as [x|]; [exfalso; apply E, Hv; discriminate|]. now rewrite IH.
+  Qed.
+
+  (** the row entries of the values of repetition level 0 *)
+  Fixpoint entries (off boff : nat) (vs : list rval) : list (nat * nat) :=
+    match vs with
+    | [] => []
+    | v :: t => (if N.eqb (rv_rep V v) 0 then [(off, boff)] else []) ++
+                entries (S off) (boff + length (wvals [v])) t
+    end.
+
+  Lemma entries_app a : forall off boff b,
+    entries off boff (a ++ b) =
+    entries off boff a ++ entries (off + length a) (boff + length (wvals a)) b.
+  Proof.
+    induction a as [|v a IH]; intros off boff b; simpl.
+    - now rewrite !Nat.add_0_r.
+    - rewrite IH, <- app_assoc. f_equal.
+      rewrite app_nil_r, app_length.
+      replace (S off + length a) with (off + S (length a)) by lia.
+      now rewrite Nat.add_assoc.
+  Qed.
+
+  Lemma entries_nonzero r : Forall (fun v => rv_rep V v <> 0%N) r -> forall off boff, entries off boff r = [].
+  Proof.
+    induction 1 as [|v r Hv _ IH]; intros off boff; simpl; auto.
+    destruct (N.eqb_spec (rv_rep V v) 0); [contradiction|]. apply IH.
+  Qed.
+
+  Lemma row_tail_spec t : forall r rest, row_tail V t = (r, rest) ->
+    t = r ++ rest /\ Forall (fun v => rv_rep V v <> 0%N) r /\ length rest <= length t.
+  Proof.
+    induction t as [|v t IH]; intros r rest E; simpl in E.
+    - inversion E; subst. repeat split; auto.
+    - destruct (N.eqb_spec (rv_rep V v) 0) as [Z|Z].
+      + inversion E; subst. repeat split; auto.
+      + destruct (row_tail V t) as [r' rest'] eqn:E'. inversion E; subst.
+        destruct (IH _ _ eq_refl) as (H1 & H2 & H3). subst t. repeat split; simpl; auto.
+  Qed.
+  End WithMd.
+
+  (** ** WriteValues appends *)
+  Definition flat_write (c : rcol) (vs : list rval) : rcol :=
+    mkRcol V (rbase V c ++ wvals (rmaxdef V c) vs)
+           (rrows V c ++ entries (rmaxdef V c) (length (rreps V c)) (length (rbase V c)) vs)
+           (rreps V c ++ map (rv_rep V) vs) (rdefs V c ++ map (rv_def V) vs)
+           (rmaxdef V c) (rnulls_first V c) (rdescending V c) (rreordered V c).
+
+  Lemma flat_write_nil c : flat_write c [] = c.
+  Proof. destruct c. unfold flat_write. simpl. now rewrite !app_nil_r. Qed.
+
+  Lemma flat_write_app c a b : flat_write (flat_write c a) b = flat_write c (a ++ b).
+  Proof.
+    unfold flat_write. simpl. rewrite wvals_app, entries_app, !map_app, !app_length, !map_length, !app_assoc.
+    reflexivity.
+  Qed.
+
+  (* writeRow on a row in the sense of WriteValues: values of non-zero
+     repetition level after the first *)
+  Lemma write_row_flat c v r : Forall (fun v => rv_rep V v <> 0%N) r ->
+    write_row V c (v :: r) = flat_write c (v :: r).
+  Proof.
+    intros Hr. unfold write_row, flat_write. f_equal.
+    cbn [entries]. rewrite (entries_nonzero (rmaxdef V c) r Hr).
+    destruct (N.eqb (rv_rep V v) 0); now rewrite ?app_nil_r.
+  Qed.
+
+  Theorem write_rvalues_flat fuel : forall c vs, length vs <= fuel ->
+    write_rvalues V fuel c vs = flat_write c vs.
+  Proof.
+    induction fuel as [|f IH]; intros c vs Hlen.
+    - destruct vs; simpl in *; [|lia]. now rewrite flat_write_nil.
+    - destruct vs as [|v t]; [simpl; now rewrite flat_write_nil|].
+      cbn [write_rvalues]. destruct (N.eqb_spec (rv_rep V v) 0) as [Z|Z].
+      + destruct (row_tail V t) as [r rest] eqn:E.
+        destruct (row_tail_spec t r rest E) as (Ht & Hr & Hl). simpl in Hlen.
+        rewrite IH by lia. rewrite write_row_flat by auto. rewrite flat_write_app. now rewrite Ht.
+      + assert (E : row_tail V (v :: t) = let (r, rest) := row_tail V t in (v :: r, rest)).
+        { simpl. destruct (N.eqb_spec (rv_rep V v) 0); [contradiction|reflexivity]. }
+        rewrite E. destruct (row_tail V t) as [r rest] eqn:E'.
+        destruct (row_tail_spec t r rest E') as (Ht & Hr & Hl). simpl in Hlen.
+        rewrite IH by lia. rewrite write_row_flat by auto. rewrite flat_write_app. now rewrite Ht.
+  Qed.
+
+  Corollary rcol_write_flat c vs : rcol_write V c vs = flat_write c vs.
+  Proof. apply write_rvalues_flat. auto. Qed.
+
+  (** ** the row entries in level order *)
+  Fixpoint canon_from (md : N) (off boff : nat) (reps defs : list N) : list (nat * nat) :=
+    match reps, defs with
+    | r :: reps', d :: defs' =>
+        (if N.eqb r 0 then [(off, boff)] else []) ++
+        canon_from md (S off) (boff + (if N.eqb d md then 1 else 0)) reps' defs'
+    | _, _ => []
+    end.
+
+  Lemma entries_canon md vs : Forall (rval_ok md) vs -> forall off boff,
+    entries md off boff vs = canon_from md off boff (map (rv_rep V) vs) (map (rv_def V) vs).
+  Proof.
+    induction 1 as [|v vs Hv _ IH]; intros off boff; simpl; auto.
+    f_equal. rewrite IH. f_equal. f_equal. rewrite app_nil_r.
+    unfold rval_ok in Hv. destruct (N.eqb_spec (rv_def V v) md) as [E|E]; auto.
+    destruct (rv_val V v); auto. exfalso. now apply Hv.
+  Qed.
+
+  Lemma canon_from_app md r1 : forall d1 r2 d2 off boff, length r1 = length d1 ->
+    canon_from md off boff (r1 ++ r2) (d1 ++ d2) =
+    canon_from md off boff r1 d1 ++ canon_from md (off + length r1) (boff + cnt md d1) r2 d2.
+  Proof.
+    induction r1 as [|r r1 IH]; intros [|d d1] r2 d2 off boff H; simpl in *; try lia.
+    - now rewrite !Nat.add_0_r.
+    - rewrite IH by lia. rewrite <- app_assoc. f_equal. rewrite cnt_cons.
+      replace (S off + length r1) with (off + S (length r1)) by lia.
+      now rewrite Nat.add_assoc.
+  Qed.
+
+  Lemma canon_from_nonzero md r : Forall nonzero r -> forall d off boff, canon_from md off boff r d = [].
+  Proof.
+    induction 1 as [|x r Hx _ IH]; intros [|d ds] off boff; simpl; auto.
+    destruct (N.eqb_spec x 0); [contradiction|]. apply IH.
+  Qed.
+
+  (* one row: level 0 then other levels *)
+  Lemma canon_from_row md nz ds off boff : Forall nonzero nz -> length ds = S (length nz) ->
+    canon_from md off boff (0%N :: nz) ds = [(off, boff)].
+  Proof.
+    intros Hn Hl. destruct ds as [|d ds]; simpl in *; [lia|].
+    now rewrite canon_from_nonzero.
+  Qed.
+
+  (** a row read through its entry *)
+  Definition entry_row' (md : N) (reps defs : list N) (base : list V) (r : nat * nat) : list rval :=
+    let len := row_length reps (fst r) in
+    rpage_values V md (slice reps (fst r) len) (slice defs (fst r) len) (skipn (snd r) base).
+
+  Lemma entry_row_eq (c : rcol) r :
+    rcol_entry_row V c r = entry_row' (rmaxdef V c) (rreps V c) (rdefs V c) (rbase V c) r.
+  Proof. reflexivity. Qed.
+
+  Lemma row_tail_app a b : Forall (fun v => rv_rep V v <> 0%N) a ->
+    hd_zero (map (rv_rep V) b) -> row_tail V (a ++ b) = (a, b).
+  Proof.
+    intros Ha Hb. induction Ha as [|v a Hv _ IH]; simpl.
+    - destruct b as [|w b]; simpl in *; auto. rewrite Hb. reflexivity.
+    - destruct (N.eqb_spec (rv_rep V v) 0); [contradiction|]. now rewrite IH.
+  Qed.
+
+  (** The page read sequentially and cut at the values of repetition level 0
+      delivers, row by row, what the entries in level order designate.  [pre],
+      [dpre], [bpre] is what precedes in the column. *)
+  Lemma cut_canon md fuel : forall pre dpre bpre suf dsuf bsuf,
+    length suf <= fuel -> length pre = length dpre -> length suf = length dsuf ->
+    length bpre = cnt md dpre -> length bsuf = cnt md dsuf -> hd_zero suf ->
+    cut_rows V fuel (rpage_values V md suf dsuf bsuf) =
+    map (entry_row' md (pre ++ suf) (dpre ++ dsuf) (bpre ++ bsuf))
+        (canon_from md (length pre) (length bpre) suf dsuf).
+  Proof.
+    induction fuel as [|f IH]; intros pre dpre bpre suf dsuf bsuf Hf Hp Hs Hb Hbs Hz.
+    - destruct suf; simpl in *; [|lia]. destruct dsuf; reflexivity.
+    - destruct suf as [|r t]; [destruct dsuf; reflexivity|].
+      simpl in Hz. subst r. destruct dsuf as [|d dt]; [simpl in Hs; lia|].
+      set (suf := 0%N :: t) in *. set (dsuf := d :: dt) in *.
+      set (len := row_length suf 0).
+      assert (Hlen : 1 <= len /\ 0 + len <= length suf) by (apply row_length_bound; simpl; lia).
+      destruct (row_shape suf 0) as (nz & Hsh & Hnz & Hrest); [simpl; lia|]. fold len in Hsh, Hrest.
+      simpl in Hrest. unfold slice in Hsh. simpl skipn in Hsh. simpl nth in Hsh.
+      set (s1 := firstn len suf) in *. set (s2 := skipn len suf) in *.
+      set (e1 := firstn len dsuf). set (e2 := skipn len dsuf).
+      assert (Es : suf = s1 ++ s2) by (symmetry; apply firstn_skipn).
+      assert (Ee : dsuf = e1 ++ e2) by (symmetry; apply firstn_skipn).
+      assert (L1 : length s1 = len) by (apply firstn_length_le; lia).
+      assert (L1' : length e1 = len) by (apply firstn_length_le; lia).
+      assert (Lnz : len = S (length nz)) by (rewrite <- L1, Hsh; reflexivity).
+      set (b1 := firstn (cnt md e1) bsuf). set (b2 := skipn (cnt md e1) bsuf).
+      assert (Cs : cnt md dsuf = cnt md e1 + cnt md e2) by (rewrite Ee at 1; apply cnt_app).
+      assert (Lb1 : length b1 = cnt md e1) by (apply firstn_length_le; lia).
+      assert (Lb2 : length b2 = cnt md e2) by (unfold b2; rewrite skipn_length; lia).
+      assert (Eb : bsuf = b1 ++ b2) by (symmetry; apply firstn_skipn).
+      (* the page: the first row, then the rest *)
+      assert (Epage : rpage_values V md suf dsuf bsuf =
+                      rpage_values V md s1 e1 bsuf ++ rpage_values V md s2 e2 b2).
+      { rewrite Es at 1. rewrite Ee at 1. apply rpage_values_app. lia. }
+      assert (Ecanon : canon_from md (length pre) (length bpre) suf dsuf =
+                       (length pre, length bpre) ::
+                       canon_from md (length (pre ++ s1)) (length (bpre ++ b1)) s2 e2).
+      { rewrite Es at 1. rewrite Ee at 1. rewrite canon_from_app by lia.
+        rewrite Hsh at 1. rewrite canon_from_row by (auto; lia).
+        rewrite !app_length, L1, Lb1. reflexivity. }
+      rewrite Epage, Ecanon. cbn [map].
+      (* the first row *)
+      assert (R1 : rpage_values V md s1 e1 bsuf =
+                   entry_row' md (pre ++ suf) (dpre ++ dsuf) (bpre ++ bsuf) (length pre, length bpre)).
+      { unfold entry_row'. cbn [fst snd]. rewrite row_length_app_r. fold len.
+        rewrite slice_app_r. rewrite Hp, slice_app_r.
+        rewrite skipn_app, skipn_all2, Nat.sub_diag by lia. reflexivity. }
+      assert (Rreps : map (rv_rep V) (rpage_values V md s1 e1 bsuf) = s1)
+        by (apply rpage_values_reps; lia).
+      destruct (rpage_values V md s1 e1 bsuf) as [|v r1] eqn:E1.
+      { rewrite Hsh in Rreps. discriminate. }
+      rewrite Hsh in Rreps. simpl in Rreps. inversion Rreps as [[Hv Hr1]].
+      cbn [app cut_rows].
+      rewrite row_tail_app.
+      + rewrite <- R1. f_equal.
+        rewrite (IH (pre ++ s1) (dpre ++ e1) (bpre ++ b1) s2 e2 b2).
+        * rewrite <- !app_assoc, <- Es, <- Ee, <- Eb. reflexivity.
+        * assert (length s2 = length suf - len) by apply skipn_length. lia.
+        * rewrite !app_length. lia.
+        * unfold s2, e2. rewrite !skipn_length. lia.
+        * rewrite app_length, cnt_app. lia.
+        * exact Lb2.
+        * exact Hrest.
+      + rewrite <- Hr1 in Hnz. rewrite Forall_map in Hnz. exact Hnz.
+      + rewrite rpage_values_reps; [exact Hrest|]. unfold s2, e2. rewrite !skipn_length. lia.
+  Qed.
+
+  (** ** the representation invariant *)
+  Definition entry_ok (md : N) (reps defs : list N) (r : nat * nat) : Prop :=
+    fst r < length reps /\ nth (fst r) reps 0%N = 0%N /\ snd r = cnt md (firstn (fst r) defs).
+
+  Record rcol_ok (c : rcol) : Prop := mkRcolOk {
+    ok_len : length (rreps V c) = length (rdefs V c);
+    ok_base : length (rbase V c) = cnt (rmaxdef V c) (rdefs V c);
+    ok_rows : Forall (entry_ok (rmaxdef V c) (rreps V c) (rdefs V c)) (rrows V c);
+    ok_hd : hd_zero (rreps V c);
+    ok_canon : rreordered V c = false ->
+               rrows V c = canon_from (rmaxdef V c) 0 0 (rreps V c) (rdefs V c) }.
+
+  Lemma canon_entries_ok md reps : forall defs pre dpre,
+    length reps = length defs -> length pre = length dpre ->
+    Forall (entry_ok md (pre ++ reps) (dpre ++ defs)) (canon_from md (length pre) (cnt md dpre) reps defs).
+  Proof.
+    induction reps as [|r reps IH]; intros [|d defs] pre dpre Hl Hp; simpl in *; try lia; [constructor|].
+    apply Forall_app. split.
+    - destruct (N.eqb_spec r 0) as [->|]; constructor; [|constructor].
+      unfold entry_ok; cbn [fst snd]. rewrite app_length. simpl. split; [lia|]. split.
+      + rewrite app_nth2, Nat.sub_diag by lia. reflexivity.
+      + rewrite Hp, firstn_app, Nat.sub_diag, firstn_all2 by lia. simpl. now rewrite app_nil_r.
+    - specialize (IH defs (pre ++ [r]) (dpre ++ [d])).
+      rewrite <- !app_assoc in IH. simpl in IH.
+      rewrite app_length, cnt_app, cnt_cons in IH. simpl in IH.
+      replace (length pre + 1) with (S (length pre)) in IH by lia.
+      replace (cnt md dpre + ((if N.eqb d md then 1 else 0) + cnt md [])) with
+              (cnt md dpre + (if N.eqb d md then 1 else 0)) in IH by (unfold cnt; simpl; lia).
+      apply IH; [lia|rewrite !app_length; simpl; lia].
+  Qed.
+
+  Lemma entry_ok_app md reps defs r2 d2 e : length reps = length defs ->
+    entry_ok md reps defs e -> entry_ok md (reps ++ r2) (defs ++ d2) e.
+  Proof.
+    intros Hl (H1 & H2 & H3). unfold entry_ok. rewrite app_length. split; [lia|]. split.
+    - now rewrite app_nth1.
+    - rewrite firstn_app. replace (fst e - length defs) with 0 by lia. now rewrite firstn_O, app_nil_r.
+  Qed.
+
+  (* the values the levels of a row call for are in the base column *)
+  Lemma entry_base_enough c e : rcol_ok c -> In e (rrows V c) ->
+    fst e + row_length (rreps V c) (fst e) <= length (rreps V c) /\
+    1 <= row_length (rreps V c) (fst e) /\
+    snd e + cnt (rmaxdef V c) (slice (rdefs V c) (fst e) (row_length (rreps V c) (fst e))) <= length (rbase V c).
+  Proof.
+    intros Hok Hin. assert (He := ok_rows c Hok). rewrite Forall_forall in He.
+    destruct (He e Hin) as (H1 & H2 & H3).
+    destruct (row_length_bound _ _ H1) as [B1 B2]. repeat split; auto.
+    rewrite H3, (ok_base c Hok). apply cnt_slice_le.
+  Qed.
+
+  (** ** appending whole rows (WriteValues, and one step of Page) *)
+  Definition append_levels (c : rcol) (rs ds : list N) (bs : list V) (reord : bool) : rcol :=
+    mkRcol V (rbase V c ++ bs)
+           (rrows V c ++ canon_from (rmaxdef V c) (length (rreps V c)) (length (rbase V c)) rs ds)
+           (rreps V c ++ rs) (rdefs V c ++ ds)
+           (rmaxdef V c) (rnulls_first V c) (rdescending V c) reord.
+
+  Lemma hd_zero_app a b : hd_zero a -> hd_zero b -> hd_zero (a ++ b).
+  Proof. destruct a; simpl; auto. Qed.
+
+  Lemma append_ok c rs ds bs reord :
+    rcol_ok c -> length rs = length ds -> length bs = cnt (rmaxdef V c) ds -> hd_zero rs ->
+    (reord = false -> rreordered V c = false) ->
+    rcol_ok (append_levels c rs ds bs reord).
+  Proof.
+    intros Hok Hl Hb Hz Hre. assert (Hlen := ok_len c Hok). assert (Hbase := ok_base c Hok).
+    constructor; unfold append_levels; simpl.
+    - rewrite !app_length. lia.
+    - rewrite app_length, cnt_app. lia.
+    - apply Forall_app. split.
+      + eapply Forall_impl; [|exact (ok_rows c Hok)]. intros e He. now apply entry_ok_app.
+      + rewrite Hbase. apply canon_entries_ok; auto.
+    - apply hd_zero_app; auto. exact (ok_hd c Hok).
+    - intros E. rewrite (ok_canon c Hok (Hre E)), canon_from_app by auto. simpl. now rewrite Hbase.
+  Qed.
+
+  Lemma append_old_rows c rs ds bs reord e :
+    rcol_ok c -> hd_zero rs -> In e (rrows V c) ->
+    rcol_entry_row V (append_levels c rs ds bs reord) e = rcol_entry_row V c e.
+  Proof.
+    intros Hok Hz Hin. destruct (entry_base_enough c e Hok Hin) as (B1 & B2 & B3).
+    assert (Hlen := ok_len c Hok).
+    rewrite !entry_row_eq. unfold entry_row', append_levels. simpl.
+    rewrite row_length_app by (auto; lia).
+    rewrite !slice_app_l by lia.
+    rewrite skipn_app. replace (snd e - length (rbase V c)) with 0 by lia. rewrite skipn_O.
+    apply rpage_values_enough. rewrite skipn_length. lia.
+  Qed.
+
+  Lemma append_rows c rs ds bs reord :
+    rcol_ok c -> length rs = length ds -> length bs = cnt (rmaxdef V c) ds -> hd_zero rs ->
+    rcol_rows V (append_levels c rs ds bs reord) =
+    rcol_rows V c ++ cut_rows V (length rs) (rpage_values V (rmaxdef V c) rs ds bs).
+  Proof.
+    intros Hok Hl Hb Hz. unfold rcol_rows at 1. unfold append_levels at 2. cbn [rrows].
+    rewrite map_app. f_equal.
+    - apply map_ext_in. intros e He. now apply append_old_rows.
+    - rewrite (cut_canon (rmaxdef V c) (length rs) (rreps V c) (rdefs V c) (rbase V c) rs ds bs);
+        auto using ok_len, ok_base.
+  Qed.
+
+  (** ** WriteValues of whole rows *)
+  Definition batch_ok (md : N) (vs : list rval) : Prop :=
+    Forall (rval_ok md) vs /\ hd_zero (map (rv_rep V) vs).
+
+  Lemma flat_write_append c vs : Forall (rval_ok (rmaxdef V c)) vs ->
+    flat_write c vs = append_levels c (map (rv_rep V) vs) (map (rv_def V) vs)
+                                    (wvals (rmaxdef V c) vs) (rreordered V c).
+  Proof. intros H. unfold flat_write, append_levels. now rewrite entries_canon. Qed.
+
+  Theorem write_ok c vs : rcol_ok c -> batch_ok (rmaxdef V c) vs ->
+    rcol_ok (rcol_write V c vs) /\
+    rcol_rows V (rcol_write V c vs) = rcol_rows V c ++ cut_rows V (length vs) vs.
+  Proof.
+    intros Hok [Hv Hz]. rewrite rcol_write_flat, flat_write_append by auto. split.
+    - apply append_ok; auto; rewrite ?map_length; auto. now apply wvals_length.
+    - rewrite append_rows; auto; rewrite ?map_length; auto; [|now apply wvals_length].
+      f_equal. f_equal.
+      rewrite <- (app_nil_r (wvals (rmaxdef V c) vs)). now apply rpage_values_written.
+  Qed.
+
+  (** ** Swap *)
+  Theorem swap_ok c i j : rcol_ok c -> rcol_ok (rcol_swap V c i j).
+  Proof.
+    intros Hok. constructor; unfold rcol_swap; simpl; try apply Hok.
+    - eapply Permutation_Forall; [apply Permutation_sym, swapl_perm|]. apply Hok.
+    - discriminate.
+  Qed.
+
+  (** ** Page *)
+  Definition page_init (c : rcol) : rcol :=
+    mkRcol V [] [] [] [] (rmaxdef V c) (rnulls_first V c) (rdescending V c) false.
+
+  Definition page_step (c acc : rcol) (r : nat * nat) : rcol :=
+    let len := row_length (rreps V c) (fst r) in
+    let defs := slice (rdefs V c) (fst r) len in
+    let nvals := length (filter (fun d => N.eqb d (rmaxdef V c)) defs) in
+    mkRcol V (rbase V acc ++ slice (rbase V c) (snd r) nvals)
+           (rrows V acc ++ [(length (rreps V acc), length (rbase V acc))])
+           (rreps V acc ++ slice (rreps V c) (fst r) len)
+           (rdefs V acc ++ defs)
+           (rmaxdef V c) (rnulls_first V c) (rdescending V c) false.
+
+  Lemma rcol_page_eq c :
+    rcol_page V c = if rreordered V c then fold_left (page_step c) (rrows V c) (page_init c) else c.
+  Proof. reflexivity. Qed.
+
+  Definition same_cfg (c acc : rcol) : Prop :=
+    rmaxdef V acc = rmaxdef V c /\ rnulls_first V acc = rnulls_first V c /\
+    rdescending V acc = rdescending V c.
+
+  Lemma page_step_ok c acc r : rcol_ok c -> In r (rrows V c) ->
+    rcol_ok acc -> rreordered V acc = false -> same_cfg c acc ->
+    let acc' := page_step c acc r in
+    rcol_ok acc' /\ rreordered V acc' = false /\ same_cfg c acc' /\
+    rcol_rows V acc' = rcol_rows V acc ++ [rcol_entry_row V c r].
+  Proof.
+    intros Hok Hin Hacc Hre (Hmd & Hnf & Hds).
+    destruct (entry_base_enough c r Hok Hin) as (B1 & B2 & B3).
+    assert (He := ok_rows c Hok). rewrite Forall_forall in He. destruct (He r Hin) as (E1 & E2 & E3).
+    assert (Hlen := ok_len c Hok).
+    set (len := row_length (rreps V c) (fst r)) in *.
+    set (rs := slice (rreps V c) (fst r) len).
+    set (ds := slice (rdefs V c) (fst r) len) in *.
+    set (bs := slice (rbase V c) (snd r) (cnt (rmaxdef V c) ds)).
+    destruct (row_shape (rreps V c) (fst r) E1) as (nz & Hsh & Hnz & _). fold len in Hsh. fold rs in Hsh.
+    rewrite E2 in Hsh.
+    assert (Lrs : length rs = len) by (apply slice_length; lia).
+    assert (Lds : length ds = len) by (apply slice_length; lia).
+    assert (Lbs : length bs = cnt (rmaxdef V c) ds) by (apply slice_length; lia).
+    assert (Lnz : len = S (length nz)) by (rewrite <- Lrs, Hsh; reflexivity).
+    assert (Hz : hd_zero rs) by (rewrite Hsh; reflexivity).
+    assert (Eacc : page_step c acc r = append_levels acc rs ds bs false).
+    { unfold page_step, append_levels. fold len. fold ds. fold rs. unfold cnt in bs. fold bs.
+      rewrite Hmd, Hnf, Hds. f_equal. f_equal.
+      rewrite Hsh. rewrite canon_from_row by (auto; lia). reflexivity. }
+    cbv zeta. rewrite Eacc. split; [|split; [|split]].
+    - apply append_ok; auto; rewrite ?Hmd; lia.
+    - reflexivity.
+    - unfold same_cfg, append_levels. simpl. auto.
+    - rewrite append_rows by (auto; rewrite ?Hmd; lia). f_equal.
+      rewrite Hmd, Lrs, Lnz. rewrite Hsh at 1.
+      assert (Rreps : map (rv_rep V) (rpage_values V (rmaxdef V c) rs ds bs) = rs)
+        by (apply rpage_values_reps; lia).
+      rewrite <- Hsh.
+      destruct (rpage_values V (rmaxdef V c) rs ds bs) as [|v r1] eqn:E.
+      { rewrite Hsh in Rreps. discriminate. }
+      cbn [cut_rows]. rewrite <- (app_nil_r r1), row_tail_app; cycle 1.
+      { rewrite Hsh in Rreps. simpl in Rreps. inversion Rreps as [[Hv Hr1]].
+        rewrite <- Hr1 in Hnz. now rewrite Forall_map in Hnz. }
+      { exact I. }
+      rewrite app_nil_r. destruct (length nz); simpl; rewrite <- E.
+      + rewrite entry_row_eq. unfold entry_row'. fold len. fold rs. fold ds.
+        rewrite (skipn_slice_base (rbase V c) (snd r) (cnt (rmaxdef V c) ds)). fold bs.
+        now rewrite rpage_values_enough by lia.
+      + rewrite entry_row_eq. unfold entry_row'. fold len. fold rs. fold ds.
+        rewrite (skipn_slice_base (rbase V c) (snd r) (cnt (rmaxdef V c) ds)). fold bs.
+        now rewrite rpage_values_enough by lia.
+  Qed.
+
+  Lemma page_fold_ok c : rcol_ok c -> forall L acc, incl L (rrows V c) ->
+    rcol_ok acc -> rreordered V acc = false -> same_cfg c acc ->
+    let acc' := fold_left (page_step c) L acc in
+    rcol_ok acc' /\ rreordered V acc' = false /\ same_cfg c acc' /\
+    rcol_rows V acc' = rcol_rows V acc ++ map (rcol_entry_row V c) L.
+  Proof.
+    intros Hok. induction L as [|r L IH]; intros acc Hincl Hacc Hre Hcfg; cbn [fold_left map].
+    - rewrite app_nil_r. auto.
+    - destruct (page_step_ok c acc r Hok (Hincl r (or_introl eq_refl)) Hacc Hre Hcfg) as (S1 & S2 & S3 & S4).
+      destruct (IH (page_step c acc r)) as (I1 & I2 & I3 & I4); auto.
+      { intros x Hx. apply Hincl. now right. }
+      cbv zeta. repeat split; auto; try apply I3.
+      rewrite I4, S4, <- app_assoc. reflexivity.
+  Qed.
+
+  Theorem page_ok c : rcol_ok c ->
+    rcol_ok (rcol_page V c) /\ rreordered V (rcol_page V c) = false /\ same_cfg c (rcol_page V c) /\
+    rcol_rows V (rcol_page V c) = rcol_rows V c.
+  Proof.
+    intros Hok. rewrite rcol_page_eq. destruct (rreordered V c) eqn:Ere.
+    - destruct (page_fold_ok c Hok (rrows V c) (page_init c)) as (I1 & I2 & I3 & I4).
+      + apply incl_refl.
+      + constructor; simpl; auto.
+      + reflexivity.
+      + unfold same_cfg, page_init; simpl; auto.
+      + repeat split; auto; apply I3.
+    - repeat split; auto.
+  Qed.
+
+  (* the page read sequentially, cut at repetition level 0 *)
+  Theorem page_rows_ok c : rcol_ok c -> rcol_page_rows V c = rcol_rows V c.
+  Proof.
+    intros Hok. destruct (page_ok c Hok) as (P1 & P2 & P3 & P4).
+    unfold rcol_page_rows. set (c' := rcol_page V c) in *. rewrite <- P4.
+    assert (Hl := ok_len c' P1).
+    rewrite rpage_values_length by auto.
+    rewrite (cut_canon (rmaxdef V c') (length (rreps V c')) [] [] [] (rreps V c') (rdefs V c') (rbase V c'));
+      auto using ok_base, ok_hd.
+    unfold rcol_rows. rewrite (ok_canon c' P1 P2). apply map_ext. intros e. now rewrite entry_row_eq.
+  Qed.
 End RepeatedProofs.
